@@ -266,6 +266,81 @@ def t_search(E, first_len):
     E.prove(any(bytes(l).startswith(b'ONE') and bytes(l).endswith(b'Skipped.') for l in dev.console.lines), 'the first file is reported as skipped')
 
 
+class _Headers(object):
+    """Tape stream stand-in for _search: delivers the given headers, then the end of the tape."""
+    _pyvc_trusted = True
+    def __init__(self, headers):
+        self.headers = list(headers)
+        self.is_open = False
+        self.wound = []
+    def open_read(self):
+        if not self.headers:
+            raise cassette.EndOfTape()
+        self.is_open = True
+        return self.headers.pop(0)
+    def counter(self):
+        return 0
+    def wind(self, pos):
+        self.wound.append(pos)
+
+
+def t_search_decision(E, k, kh, types):
+    """_search's decision for one header, all names: a file is Found exactly when its recorded name
+    (8 characters, space padded) is the requested name padded the same way - a name that merely begins
+    with the requested name is Skipped - and its type is among the requested types; an empty request
+    matches any name."""
+    req = [E.int('req[%d]' % i, 33, 126) for i in range(k)]
+    nam = [E.int('name[%d]' % i, 33, 126) for i in range(kh)]
+    mk = (lambda cells: SBuf(cells, 'bytes')) if E.mode == 'symbolic' else (lambda cells: bytes(cells))
+    trunk = mk(nam + [32] * (8 - kh))
+    dev = object.__new__(cassette.CASDevice)
+    ts = _Headers([(trunk, b'D', 0, 0, 0)])
+    dev.tapestream = ts
+    dev.is_quiet = False
+    dev.console = _Console()
+    r = E.call(dev._search, mk(req) if k else b'', types)
+    same = (k == 0) or (k == kh and bool(And(*[a == b for a, b in zip(req, nam)])))
+    type_ok = types is None or b'D' in types
+    if same and type_ok:
+        E.cover('found')
+        E.prove(not r.raised, 'a file with the requested name and type is found')
+        if not r.raised:
+            E.prove(bool(buf_equal(r.value[0], trunk)) and r.value[1] == b'D', 'its own header is returned')
+        E.prove(len(dev.console.lines) == 1 and bool(dev.console.lines[0].endswith(b'.D Found.')), 'and reported as Found')
+    else:
+        E.cover('skipped')
+        E.prove(r.is_error(BASICError, error.DEVICE_TIMEOUT), 'a file with another name (even one that begins with the requested name) or type is not delivered')
+        E.prove(len(dev.console.lines) == 1 and bool(dev.console.lines[0].endswith(b'.D Skipped.')), 'it is reported as Skipped')
+        E.prove(ts.is_open is False and ts.wound == [0], 'and the tape is left closed and rewound')
+
+
+def t_skip_text_file(E, L):
+    """Skipping a data file of L bytes: the search reports it once as Skipped and then finds the next file."""
+    cs, tape = _stream(E)
+    dev = object.__new__(cassette.CASDevice)
+    dev.tapestream = cs
+    dev.is_quiet = False
+    dev.console = _Console()
+    if (L + 1) % 255 == 0xa5:
+        # recorded, open finding: the final record of such a file starts with the count byte 0xa5,
+        # which is also the header marker (the tape format cannot tell them apart)
+        if E.known_finding('C29-final-record-count-is-header-marker', True):
+            return
+    for name, data in ((b'FIRST', b'X' * L), (b'SECOND', b'two')):
+        E.call(cs.open_write, name, b'D', 0, 0, 0)
+        E.call(cs.write, data)
+        E.call(cs.write, b'\0')
+        E.call(cs.close)
+    tape.rpos = 0
+    r = E.call(dev._search, b'SECOND', None)
+    E.prove(not r.raised, 'the second file is found')
+    E.prove([bytes(l) for l in dev.console.lines] == [b'FIRST   .D Skipped.', b'SECOND  .D Found.'],
+            'the skipped file is reported once, and nothing else is taken for a file')
+    if not r.raised:
+        got = E.call(cs.read, -1)
+        E.prove(not got.raised and bytes(got.value) == b'two', 'and the second file reads back as written')
+
+
 class _MFile(object):
     """A file opened by BLOAD: header fields and the bytes read() delivers."""
     _pyvc_trusted = True
@@ -332,6 +407,9 @@ TASKS = [
          cases=[{'L': L, 'ftype': t} for L, t in ((1, b'B'), (3, b'B'), (255, b'P'), (256, b'M'), (257, b'B'), (600, b'P'))]),
     Task('block and CRC', t_block, cases=[{'n': n} for n in (1, 17, 256)]),
     Task('CASDevice._search', t_search, cases=[{'first_len': n} for n in (0, 4, 300)]),
+    Task('CASDevice._search (skipping a data file)', t_skip_text_file, cases=[{'L': n} for n in (0, 163, 164, 165, 254, 255, 419, 600)]),
+    Task('CASDevice._search (name and type decision)', t_search_decision, covers=('found', 'skipped'),
+         cases=[{'k': k, 'kh': kh, 'types': t} for k in (0, 1, 3, 8) for kh in (1, 3, 4, 8) for t in (None, (b'D',), (b'B', b'P'))]),
     Task('Memory.bload_ (image read back whole)', t_bload, cases=[{'n': n, 'device': d} for n in (1, 4, 10) for d in ('cassette', 'disk')]),
 ]
 
